@@ -17,6 +17,8 @@ def declared(spec_c):
 
 
 def oracle(chk, world, r, case):
+    if getattr(r, "edges_changed", None):
+        chk.failure(r.edges_changed, case)
     b = r.broker
     if r.error is not None:
         chk.failure("evaluation raised %r" % (r.error,), case)
